@@ -227,9 +227,11 @@ class State:
 
 
 class Explorer:
-    def __init__(self, max_paths=4000):
-        self.work: list[list[int]] = [[]]
+    def __init__(self, max_paths=4000, start=None, budget=None):
+        self.work: list[list[int]] = [list(start or [])]
         self.max_paths = max_paths
+        self.budget = budget          # stop after this many paths; the rest of the worklist is handed back (pending)
+        self.pending: list[list[int]] = []
         self.paths_run = 0
         self.infeasible = 0
 
@@ -240,6 +242,10 @@ class Explorer:
         """body(State) executes one path"""
         results = []
         while self.work:
+            if self.budget is not None and self.paths_run + self.infeasible >= self.budget:
+                self.pending = self.work
+                self.work = []
+                break
             prefix = self.work.pop()
             if self.paths_run >= self.max_paths:
                 raise Undecided(f"more than {self.max_paths} paths")
